@@ -2,8 +2,8 @@
    (catmull_simplify) keeps the surplus small against the path.
 
    Invariant [PI c path opt] on the path built so far and the surplus [opt]
-   (c: a counter, at least the number of vertices pushed so far):
-       opt finite,   opt <= 2^60 * c,   length path <= c,
+   (c: a counter, at least the number of groups closed so far):
+       opt finite,   |opt| <= 2^60 * c,
        - opt <= (3/4 + 2 c u) * Lam path            (u = 2^-53)
    where [Lam path] is the real sum of the binary64 segment lengths
    calculate_length will add.  One group  last_start .. curr  of removed
@@ -82,22 +82,21 @@ Qed.
 Definition cmax : R := 1073741824.     (* 2^30 *)
 
 Definition PI (c : nat) (path : list Pos) (opt : F64) : Prop :=
-  fin opt /\ B2R opt <= pw 60 * INR c /\ (length path <= c)%nat /\
+  fin opt /\ Rabs (B2R opt) <= pw 60 * INR c /\
   - B2R opt <= (3 / 4 + 2 * INR c * u64) * Lam path.
 
-Lemma PI_mono c c' p p' opt : PI c p opt -> (c <= c')%nat -> (length p' <= c')%nat -> Lam p <= Lam p' ->
-  PI c' p' opt.
+Lemma PI_mono c c' p p' opt : PI c p opt -> (c <= c')%nat -> Lam p <= Lam p' -> PI c' p' opt.
 Proof.
-  intros (F & U & L & N) Hc Hl HL. pose proof (le_INR _ _ Hc) as Hc'. pose proof (pos_INR c) as P.
+  intros (F & U & N) Hc HL. pose proof (le_INR _ _ Hc) as Hc'. pose proof (pos_INR c) as P.
   pose proof (bpow_gt_0 radix2 60). pose proof u64_pos as Up. pose proof (Lam_nonneg p).
-  split; [exact F|]. split; [nra|]. split; [exact Hl|].
+  split; [exact F|]. split; [nra|].
   apply Rle_trans with ((3 / 4 + 2 * INR c * u64) * Lam p); [exact N|].
   apply Rmult_le_compat; nra.
 Qed.
 
 Lemma PI_zero : PI 0 [] D.zero.
 Proof.
-  split; [reflexivity|]. split; [cbn; lra|]. split; [cbn; lia|].
+  split; [reflexivity|]. split; [cbn; rewrite Rabs_R0; lra|].
   unfold Lam. cbn. lra.
 Qed.
 
@@ -110,13 +109,13 @@ Lemma p23 : pw 23 = 8388608. Proof. cbn. lra. Qed.
 Lemma PI_group c path path' opt (rem dfs : F64) :
   PI c path opt -> INR c + 1 <= cmax ->
   fin rem -> fin dfs -> 0 <= B2R dfs -> B2R dfs <= 4 * B2R rem -> B2R rem <= pw 54 ->
-  Lam path' = Lam path + B2R dfs -> length path' = S (length path) ->
+  Lam path' = Lam path + B2R dfs ->
   PI (S c) path' (D.add opt (D.sub rem dfs)).
 Proof.
-  intros (Fo & Uo & Lo & No) Hc Fr Fd Hd0 Hdr Hr HLam Hlen.
+  intros (Fo & Uo & No) Hc Fr Fd Hd0 Hdr Hr HLam.
   pose proof u64_pos as Up. assert (Hu1 : u64 <= / 1000000) by (unfold u64; lra).
   pose proof (pos_INR c) as Pc. pose proof (Lam_nonneg path) as PL.
-  pose proof (Lam_le path) as UL. pose proof (le_INR _ _ Lo) as Lo'.
+  apply Rabs_le_inv in Uo.
   set (o := B2R opt) in *. set (r := B2R rem) in *. set (d := B2R dfs) in *. set (L := Lam path) in *.
   set (A := pw 60) in *. set (B := pw 54) in *.
   assert (HB : 0 < B) by apply bpow_gt_0.
@@ -147,17 +146,11 @@ Proof.
       { replace ((r - d) * (1 + dt)) with (- ((d - r) * (1 + dt))) by ring.
         assert (0 <= (d - r) * (1 + dt)) by (apply Rmult_le_pos; lra). lra. }
       assert (0 <= B * (1 + u64)) by (apply Rmult_le_pos; lra). lra. }
-  assert (Hno : - o <= L).
-  { apply Rle_trans with (1 := No). rewrite <- (Rmult_1_l L) at 2. apply Rmult_le_compat_r; lra. }
   (* magnitudes *)
   assert (Q299 : forall j, (j <= 299)%Z -> pw j <= pw 299) by (intros j Hj; apply bpow_le; exact Hj).
-  assert (Ho299 : o <= pw 299).
-  { apply Rle_trans with (1 := Uo). apply Rle_trans with (A * 1073741824); [apply Rmult_le_compat_l; [left; apply bpow_gt_0|exact Hcm]|].
+  assert (Ho299 : A * INR c <= pw 299).
+  { apply Rle_trans with (A * 1073741824); [apply Rmult_le_compat_l; [left; apply bpow_gt_0|exact Hcm]|].
     replace 1073741824 with (pw 30) by (cbn; lra). unfold A. rewrite <- bpow_plus. apply Q299. zl. }
-  assert (HL299 : L <= pw 299).
-  { apply Rle_trans with (1 := UL). apply Rle_trans with (pw 128 * 1073741824).
-    - apply Rmult_le_compat_l; [left; apply bpow_gt_0|lra].
-    - replace 1073741824 with (pw 30) by (cbn; lra). rewrite <- bpow_plus. apply Q299. zl. }
   assert (HB299 : 4 * B <= pw 299).
   { replace 4 with (pw 2) by (cbn; lra). unfold B. rewrite <- bpow_plus. apply Q299. zl. }
   assert (Hd4B : d <= 4 * B) by lra.
@@ -170,19 +163,16 @@ Proof.
   destruct (D_add_spec opt (D.sub rem dfs) 300 Fo Ft ltac:(zl) Hot) as (Fo' & _ & (da & Ea & Ba)).
   fold o t in Ea. apply Rabs_le_inv in Ba.
   split; [exact Fo'|]. rewrite Ea. rewrite S_INR. rewrite HLam. fold L d. fold A.
-  split; [|split; [rewrite Hlen; lia|]].
-  - (* upper bound *)
-    destruct (Rle_or_lt (o + t) 0) as [Hn|Hp].
-    + assert ((o + t) * (1 + da) <= 0).
-      { replace ((o + t) * (1 + da)) with (- ((- (o + t)) * (1 + da))) by ring.
-        assert (0 <= (- (o + t)) * (1 + da)) by (apply Rmult_le_pos; lra). lra. }
-      assert (0 <= A * (INR c + 1)) by (apply Rmult_le_pos; [left; apply bpow_gt_0|lra]). lra.
-    + apply Rle_trans with ((o + t) * (1 + u64)); [apply Rmult_le_compat_l; lra|].
-      apply Rle_trans with ((A * INR c + B * (1 + u64)) * (1 + u64)); [apply Rmult_le_compat_r; lra|].
-      rewrite HA.
-      replace ((64 * B * INR c + B * (1 + u64)) * (1 + u64)) with (B * (64 * INR c * (1 + u64) + (1 + u64) * (1 + u64))) by ring.
-      replace (64 * B * (INR c + 1)) with (B * (64 * INR c + 64)) by ring.
-      apply Rmult_le_compat_l; [lra|]. unfold u64. lra.
+  split.
+  - (* magnitude *)
+    rewrite Rabs_mult. rewrite (Rabs_pos_eq (1 + da)) by lra.
+    assert (Hab : Rabs (o + t) <= A * INR c + 4 * B) by (apply Rabs_le; lra).
+    apply Rle_trans with (Rabs (o + t) * (1 + u64)); [apply Rmult_le_compat_l; [apply Rabs_pos|lra]|].
+    apply Rle_trans with ((A * INR c + 4 * B) * (1 + u64)); [apply Rmult_le_compat_r; lra|].
+    rewrite HA.
+    replace ((64 * B * INR c + 4 * B) * (1 + u64)) with (B * ((64 * INR c + 4) * (1 + u64))) by ring.
+    replace (64 * B * (INR c + 1)) with (B * (64 * INR c + 64)) by ring.
+    apply Rmult_le_compat_l; [lra|]. unfold u64. lra.
   - (* lower bound *)
     fold kap.
     assert (Hm : - o - t <= kap * L + 3 / 4 * (1 + u64) * d) by lra.
@@ -364,10 +354,8 @@ Proof.
           destruct (seg_len_fin q curr Hq Hcurr) as (_ & E1). rewrite E1.
           destruct (seg_len_fin curr ls Hcurr Hls) as (_ & E2). unfold pdist. rewrite E2.
           rewrite (plen_psub_ext curr q ls Hcurr Hq Hls Eq). apply plen_psub_sym; assumption. }
-        assert (Hlen : length (P ++ acc ++ [curr]) = S (length (P ++ acc))).
-        { rewrite app_assoc, app_length. cbn. lia. }
         pose proof (PI_group c (P ++ acc) (P ++ acc ++ [curr]) opt rem' (f64_of_f32 (pdist ls curr))
-                      HPI ltac:(lra) Fr' Fd Hd0 Hd4 Hr54 HLam Hlen) as HPI'.
+                      HPI ltac:(lra) Fr' Fd Hd0 Hd4 Hr54 HLam) as HPI'.
         destruct (IH (i + 1)%Z n curr None D.zero (acc ++ [curr]) _ P (S c) 0%nat acc' opt'
                      Hco' Hsg' eq_refl HPI' ltac:(cbn [INR]; lra) ltac:(rewrite S_INR; lra) H) as (c' & HP & Hc').
         exists c'. split; [exact HP|]. rewrite S_INR in Hc'. lra.
@@ -381,8 +369,7 @@ Proof.
     + (* a new group starts at curr *)
       rewrite simplify_loop_none in H. cbn [gstate] in Hg. subst rem.
       assert (HPI' : PI (S c) (P ++ acc ++ [curr]) opt).
-      { apply (PI_mono c (S c) (P ++ acc)); [exact HPI|lia| |rewrite app_assoc; apply Lam_app_ge].
-        destruct HPI as (_ & _ & L & _). rewrite app_assoc, app_length. cbn. lia. }
+      { apply (PI_mono c (S c) (P ++ acc)); [exact HPI|lia|rewrite app_assoc; apply Lam_app_ge]. }
       assert (Hg' : gstate (P ++ acc ++ [curr]) curr (Some curr) D.zero 0).
       { split; [exact Hcurr|]. split; [exists (P ++ acc), curr; rewrite app_assoc; split; [reflexivity|split; [exact Hcurr|reflexivity]]|].
         exists 0. split; [reflexivity|]. split; [apply rel_zero|].
